@@ -80,6 +80,7 @@ fn main() {
         "replay" => cmd_replay(&a),
         "determinism" => cmd_determinism(&a),
         "selftest" => cmd_selftest(),
+        "show" => cmd_show(&a),
         _ => usage(),
     };
     std::process::exit(code);
@@ -247,7 +248,7 @@ fn cmd_run(a: &Args) -> i32 {
         .map(|p| J::obj().with("phase", J::s(&p.source.name())).with("planned_runs", J::Int(p.runs as i64)))
         .collect();
 
-    let cfg = RunCfg { workers, keep_log: a.opts.contains_key("log"), hang_ms, max_found: 64 };
+    let cfg = RunCfg { workers, keep_log: a.opts.contains_key("log"), hang_ms, max_found: 64, stop_on_violation: !a.opts.contains_key("no-stop") };
     let (stats, hang) = run_phases(&ctx, phases_clone_guard(phases), &cfg, &prop);
     let wall = t0.elapsed().as_secs_f64();
 
@@ -587,7 +588,13 @@ fn add_counts(dst: &mut J, src: &J) {
         for (k, v) in s {
             match d.iter_mut().find(|(kk, _)| kk == k) {
                 Some((_, dv)) => match (dv, v) {
-                    (J::Int(a), J::Int(b)) => *a += *b,
+                    (J::Int(a), J::Int(b)) => {
+                        if k == "workers" || k == "symbol_sizes_exercised" {
+                            *a = (*a).max(*b)
+                        } else {
+                            *a += *b
+                        }
+                    }
                     (dv @ J::Obj(_), J::Obj(_)) => add_counts(dv, v),
                     _ => {}
                 },
@@ -864,4 +871,25 @@ fn cmd_selftest() -> i32 {
     } else {
         0
     }
+}
+
+/// Debug helper: print the trace of one random run and what the consumer makes of it.
+fn cmd_show(a: &Args) -> i32 {
+    let prop = a.opts.get("prop").cloned().unwrap_or_else(|| usage());
+    let seed = a.opts.get("seed").and_then(|s| s.parse().ok()).unwrap_or_else(env_seed);
+    let idx: u64 = a.opts.get("index").and_then(|s| s.parse().ok()).unwrap_or(0);
+    let ctx = Ctx::new();
+    let (rs, t) = Source::Random { prop: prop.clone(), seed }.trace(&ctx, idx);
+    println!("run_seed {:016x}", rs);
+    println!("{}", t.to_json().to_string_pretty());
+    let o = execute(&ctx, &t, &runner::exec_opts_for(&prop));
+    println!("{:?}", o);
+    if let trace::Producer::Msg { msg, list, modes, macros, fnc1, eci } = &t.producer {
+        if let Ok(Some((size, data, _))) = exec::produce_msg(msg, list, *modes, *macros, *fnc1, *eci) {
+            println!("size {} data codewords {:?}", SIZES[size].name, data);
+            println!("decode_data -> {:?}", datamatrix::data::decode_data(&data));
+            println!("message      -> {:?}", msg);
+        }
+    }
+    0
 }
